@@ -58,3 +58,15 @@ Lemma all_translated :
   src_rpm_defaultTo_translated && src_rpm_formatVersion_translated && src_rpm_filename_translated && src_deb_filename_translated
   && src_ipk_filename_translated && src_apk_pkgver_translated && src_apk_filename_translated = true.
 Proof. reflexivity. Qed.
+
+(* ---- files.isRelevantForPackager as translated equals the planning model's is_relevant ---- *)
+From NfpmV Require Import Model.Path Model.Prepare Gen.BoolFns.
+
+Lemma src_is_relevant_is_model p c : src_is_relevant p c = is_relevant p c.
+Proof.
+  unfold src_is_relevant, is_relevant, is_rpm_only_typ, typ_in, P_rpm, P_deb, TDoc, TLicence, TLicense, TReadme, TGhost, TDebChangelog.
+  cbn [existsb].
+  destruct (seqb p []), (seqb (c_pkgr c) []), (seqb (c_pkgr c) p), (seqb p (B "rpm")), (seqb p (B "deb")),
+    (seqb (c_typ c) (B "doc")), (seqb (c_typ c) (B "licence")), (seqb (c_typ c) (B "license")), (seqb (c_typ c) (B "readme")),
+    (seqb (c_typ c) (B "ghost")), (seqb (c_typ c) (B "debian changelog")); reflexivity.
+Qed.
